@@ -12,6 +12,16 @@ def same_float(a, b):
     return struct.pack("<d", a) == struct.pack("<d", b)
 
 
+def close_ext(got, want, tol):
+    """|got - want| <= tol on the extended reals: an infinite expectation must be met exactly, an indeterminate one (nan: a
+    zero weight on an infinite sample, inf - inf) accepts anything."""
+    if want != want:
+        return True
+    if want in (float("inf"), float("-inf")):
+        return got == want
+    return abs(got - want) <= tol
+
+
 def ap_from_scenario(src, fields, levels, ndims=3, time=0.5, classes_from_cells=True, cross=(3, 2)):
     """Scenario levels [{"cells":[..],"file":[..],"disk":[[..],..]}] -> abstract plotfile for gamma."""
     from . import gamma
